@@ -1,0 +1,39 @@
+//go:build verif
+
+// Contracts for the verifier in /verif (comment-only file; compiled only with -tags verif).
+
+package dicttls
+
+// Every registry table must be invertible: each value->name entry has the matching name->value entry.
+// keys(m) expands over the entries of the map literal, one ground obligation per entry.
+//@ func init
+//@   property C32
+//@   note DictAEADIdentifier: only one direction exists, nothing to invert
+//@   ensures Alert: forall v in keys(DictAlertValueIndexed): has(DictAlertNameIndexed, DictAlertValueIndexed[v]) && DictAlertNameIndexed[DictAlertValueIndexed[v]] == v
+//@   ensures AuthorizationDataFormat: forall v in keys(DictAuthorizationDataFormatValueIndexed): has(DictAuthorizationDataFormatNameIndexed, DictAuthorizationDataFormatValueIndexed[v]) && DictAuthorizationDataFormatNameIndexed[DictAuthorizationDataFormatValueIndexed[v]] == v
+//@   ensures CachedInformationType: forall v in keys(DictCachedInformationTypeValueIndexed): has(DictCachedInformationTypeNameIndexed, DictCachedInformationTypeValueIndexed[v]) && DictCachedInformationTypeNameIndexed[DictCachedInformationTypeValueIndexed[v]] == v
+//@   ensures CertificateCompressionAlgorithm: forall v in keys(DictCertificateCompressionAlgorithmValueIndexed): has(DictCertificateCompressionAlgorithmNameIndexed, DictCertificateCompressionAlgorithmValueIndexed[v]) && DictCertificateCompressionAlgorithmNameIndexed[DictCertificateCompressionAlgorithmValueIndexed[v]] == v
+//@   ensures CertificateStatusType: forall v in keys(DictCertificateStatusTypeValueIndexed): has(DictCertificateStatusTypeNameIndexed, DictCertificateStatusTypeValueIndexed[v]) && DictCertificateStatusTypeNameIndexed[DictCertificateStatusTypeValueIndexed[v]] == v
+//@   ensures CertificateType: forall v in keys(DictCertificateTypeValueIndexed): has(DictCertificateTypeNameIndexed, DictCertificateTypeValueIndexed[v]) && DictCertificateTypeNameIndexed[DictCertificateTypeValueIndexed[v]] == v
+//@   ensures CipherSuite: forall v in keys(DictCipherSuiteValueIndexed): has(DictCipherSuiteNameIndexed, DictCipherSuiteValueIndexed[v]) && DictCipherSuiteNameIndexed[DictCipherSuiteValueIndexed[v]] == v
+//@   ensures ClientCertificateTypeIdentifier: forall v in keys(DictClientCertificateTypeIdentifierValueIndexed): has(DictClientCertificateTypeIdentifierNameIndexed, DictClientCertificateTypeIdentifierValueIndexed[v]) && DictClientCertificateTypeIdentifierNameIndexed[DictClientCertificateTypeIdentifierValueIndexed[v]] == v
+//@   ensures CompMeth: forall v in keys(DictCompMethValueIndexed): has(DictCompMethNameIndexed, DictCompMethValueIndexed[v]) && DictCompMethNameIndexed[DictCompMethValueIndexed[v]] == v
+//@   ensures ContentType: forall v in keys(DictContentTypeValueIndexed): has(DictContentTypeNameIndexed, DictContentTypeValueIndexed[v]) && DictContentTypeNameIndexed[DictContentTypeValueIndexed[v]] == v
+//@   ensures ECCurveType: forall v in keys(DictECCurveTypeValueIndexed): has(DictECCurveTypeNameIndexed, DictECCurveTypeValueIndexed[v]) && DictECCurveTypeNameIndexed[DictECCurveTypeValueIndexed[v]] == v
+//@   ensures ECPointFormat: forall v in keys(DictECPointFormatValueIndexed): has(DictECPointFormatNameIndexed, DictECPointFormatValueIndexed[v]) && DictECPointFormatNameIndexed[DictECPointFormatValueIndexed[v]] == v
+//@   ensures ExtType: forall v in keys(DictExtTypeValueIndexed): has(DictExtTypeNameIndexed, DictExtTypeValueIndexed[v]) && DictExtTypeNameIndexed[DictExtTypeValueIndexed[v]] == v
+//@   ensures HandshakeType: forall v in keys(DictHandshakeTypeValueIndexed): has(DictHandshakeTypeNameIndexed, DictHandshakeTypeValueIndexed[v]) && DictHandshakeTypeNameIndexed[DictHandshakeTypeValueIndexed[v]] == v
+//@   ensures HashAlgorithm: forall v in keys(DictHashAlgorithmValueIndexed): has(DictHashAlgorithmNameIndexed, DictHashAlgorithmValueIndexed[v]) && DictHashAlgorithmNameIndexed[DictHashAlgorithmValueIndexed[v]] == v
+//@   ensures HeartbeatMessageType: forall v in keys(DictHeartbeatMessageTypeValueIndexed): has(DictHeartbeatMessageTypeNameIndexed, DictHeartbeatMessageTypeValueIndexed[v]) && DictHeartbeatMessageTypeNameIndexed[DictHeartbeatMessageTypeValueIndexed[v]] == v
+//@   ensures HeartbeatMode: forall v in keys(DictHeartbeatModeValueIndexed): has(DictHeartbeatModeNameIndexed, DictHeartbeatModeValueIndexed[v]) && DictHeartbeatModeNameIndexed[DictHeartbeatModeValueIndexed[v]] == v
+//@   ensures KDFIdentifier: forall v in keys(DictKDFIdentifierValueIndexed): has(DictKDFIdentifierNameIndexed, DictKDFIdentifierValueIndexed[v]) && DictKDFIdentifierNameIndexed[DictKDFIdentifierValueIndexed[v]] == v
+//@   ensures KEMIdentifier: forall v in keys(DictKEMIdentifierValueIndexed): has(DictKEMIdentifierNameIndexed, DictKEMIdentifierValueIndexed[v]) && DictKEMIdentifierNameIndexed[DictKEMIdentifierValueIndexed[v]] == v
+//@   ensures PSKKeyExchangeMode: forall v in keys(DictPSKKeyExchangeModeValueIndexed): has(DictPSKKeyExchangeModeNameIndexed, DictPSKKeyExchangeModeValueIndexed[v]) && DictPSKKeyExchangeModeNameIndexed[DictPSKKeyExchangeModeValueIndexed[v]] == v
+//@   ensures QUICFrameType: forall v in keys(DictQUICFrameTypeValueIndexed): has(DictQUICFrameTypeNameIndexed, DictQUICFrameTypeValueIndexed[v]) && DictQUICFrameTypeNameIndexed[DictQUICFrameTypeValueIndexed[v]] == v
+//@   ensures QUICTransportErrorCode: forall v in keys(DictQUICTransportErrorCodeValueIndexed): has(DictQUICTransportErrorCodeNameIndexed, DictQUICTransportErrorCodeValueIndexed[v]) && DictQUICTransportErrorCodeNameIndexed[DictQUICTransportErrorCodeValueIndexed[v]] == v
+//@   ensures QUICTransportParameter: forall v in keys(DictQUICTransportParameterValueIndexed): has(DictQUICTransportParameterNameIndexed, DictQUICTransportParameterValueIndexed[v]) && DictQUICTransportParameterNameIndexed[DictQUICTransportParameterValueIndexed[v]] == v
+//@   ensures SignatureAlgorithm: forall v in keys(DictSignatureAlgorithmValueIndexed): has(DictSignatureAlgorithmNameIndexed, DictSignatureAlgorithmValueIndexed[v]) && DictSignatureAlgorithmNameIndexed[DictSignatureAlgorithmValueIndexed[v]] == v
+//@   ensures SignatureScheme: forall v in keys(DictSignatureSchemeValueIndexed): has(DictSignatureSchemeNameIndexed, DictSignatureSchemeValueIndexed[v]) && DictSignatureSchemeNameIndexed[DictSignatureSchemeValueIndexed[v]] == v
+//@   ensures SupplementalDataFormat: forall v in keys(DictSupplementalDataFormatValueIndexed): has(DictSupplementalDataFormatNameIndexed, DictSupplementalDataFormatValueIndexed[v]) && DictSupplementalDataFormatNameIndexed[DictSupplementalDataFormatValueIndexed[v]] == v
+//@   ensures SupportedGroups: forall v in keys(DictSupportedGroupsValueIndexed): has(DictSupportedGroupsNameIndexed, DictSupportedGroupsValueIndexed[v]) && DictSupportedGroupsNameIndexed[DictSupportedGroupsValueIndexed[v]] == v
+//@   ensures UserMappingType: forall v in keys(DictUserMappingTypeValueIndexed): has(DictUserMappingTypeNameIndexed, DictUserMappingTypeValueIndexed[v]) && DictUserMappingTypeNameIndexed[DictUserMappingTypeValueIndexed[v]] == v
